@@ -121,6 +121,9 @@ func driverSnap(c *Ctx) {
 					return ast.NewListNode("zz9", ast.NewIntNode(2, n)).FillVariables(map[string]interface{}{"zz9": ast.NewFloatNode(4, n)})
 				},
 				func() ast.ItemNode { return ast.NewListNode(n, ast.NewListNode(n)) },
+				func() ast.ItemNode { // ... one level down, with no other key in the map
+					return ast.NewListNode(ast.NewListNode("zz9"), it, ast.NewIntNode(2, n)).FillVariables(map[string]interface{}{"zz9": ast.NewListNode(ast.NewFloatNode(4, n))})
+				},
 				// ... and the names of repeat markers are names like any other
 				func() ast.ItemNode {
 					return ast.NewListNode(ast.NewListNode(ast.NewUintNode(1, 1), "..."), "...")
@@ -140,6 +143,25 @@ func driverSnap(c *Ctx) {
 					c.count("snap.duplicate-built")
 				}
 			}
+		}
+		if i%7 == 3 {
+			// one list of k variables as first element of two further lists, each with a variable of its own behind it;
+			// the first is observed again after the second was built
+			k := []int{1, 2, 3, 3, 5, 6, 7, 9}[g.pick(8)]
+			args := make([]interface{}, k)
+			for j := range args {
+				args[j] = g.newVar()
+			}
+			common := ast.NewListNode(args...)
+			p1 := ast.NewListNode(common, ast.NewUintNode(1, g.newVar()), g.newVar())
+			p2 := ast.NewListNode(common, ast.NewIntNode(2, g.newVar()))
+			p3 := ast.NewListNode(common, g.newVar(), g.newVar(), g.newVar()).FillVariables(map[string]interface{}{})
+			for _, x := range []ast.ItemNode{p1, p2, p3, common, p1} {
+				sev := observe(x)
+				sev["ev"], sev["kind"] = "snap", "item"
+				c.emit(i, sev)
+			}
+			c.count("snap.shared")
 		}
 		gm := g.header(false)
 		m := ast.NewDataMessage(gm.Name, gm.S, gm.F, gm.W, gm.Dir, it)
@@ -846,6 +868,9 @@ func driverCtor(c *Ctx) {
 				},
 				"dupgenfill": func() ast.ItemNode {
 					return ast.NewListNode(ast.NewListNode(ast.NewBooleanNode(n)), "...", ast.NewIntNode(2, n+"[0]")).FillVariables(map[string]interface{}{"...": 2, n + "[0]": 5})
+				},
+				"dupinsertdeep": func() ast.ItemNode { // the item that brings the second occurrence goes in one level down
+					return ast.NewListNode(ast.NewListNode(ast.NewBinaryNode(1), "zz9"), ast.NewIntNode(2, n)).FillVariables(map[string]interface{}{"zz9": ast.NewFloatNode(4, n)})
 				},
 				"dupinsert": func() ast.ItemNode {
 					return ast.NewListNode("zz9", ast.NewIntNode(2, n)).FillVariables(map[string]interface{}{"zz9": ast.NewFloatNode(4, n)})
